@@ -85,9 +85,21 @@ def universe(tier, names=NAMES):
             ("append", names[0]), ("append", names[-1]), ("index", "k"), ("index", "name"),
             ("cellk", 0, names[0]),
             ("delidx", "del"), ("delidx", "pop"), ("readd", "item"), ("readd", "attr")]
+    # several cells of the index column at once: position slices, a position list, a boolean mask
+    for nm in names[:2]:
+        ops += [("cells", ("slice", 0, 2, None), nm), ("cells", ("slice", 1, None, None), nm), ("cells", ("slice", None, None, 2), nm),
+                ("cells", ("list", (0, 2)), nm), ("cells", ("mask",), nm)]
     ops += [("probe", p) for p in (PROBES if names == NAMES else [names[0], ABSENT, (names[1], 0)])]
     ops += [("labels",)]
     return ops
+
+
+def cells_positions(sel, n):
+    if sel[0] == "slice":
+        return list(range(n))[slice(sel[1], sel[2], sel[3])]
+    if sel[0] == "list":
+        return list(sel[1])
+    return [i for i in range(n) if i % 2 == 0]
 
 
 class System(simple.SimpleSystem):
@@ -134,6 +146,8 @@ class System(simple.SimpleSystem):
                 continue
             if k == "cell" and op[1] >= n:
                 continue
+            if k == "cells" and (n == 0 or (op[1][0] == "list" and max(op[1][1]) >= n)):
+                continue
             if k in ("vcell", "cellk") and (op[1] >= n or (k == "cellk" and "k" not in m.cols)):
                 continue
             if k == "append" and (n >= MAXROWS and n < 10 or n >= len(self.init) + 2 and n >= 10):
@@ -166,6 +180,12 @@ class System(simple.SimpleSystem):
         elif k == "cellk":
             t["k", op[1]] = op[2]
             m.cols["k"][op[1]] = op[2]
+        elif k == "cells":
+            sel = op[1]
+            key = slice(sel[1], sel[2], sel[3]) if sel[0] == "slice" else (list(sel[1]) if sel[0] == "list" else np.array([i % 2 == 0 for i in range(n)]))
+            t[m.index, key] = op[2]
+            for pos in cells_positions(sel, n):
+                m.icol()[pos] = op[2]
         elif k == "cellby":
             name, count, off = parse_row(op[1])
             pos = resolve(m.icol(), name, count, off)
@@ -266,6 +286,10 @@ class System(simple.SimpleSystem):
             return f"t[t._index, {op[1]}] = {op[2]!r}"
         if k == "cellk":
             return f"t['k', {op[1]}] = {op[2]!r}"
+        if k == "cells":
+            sel = op[1]
+            key = f"slice({sel[1]}, {sel[2]}, {sel[3]})" if sel[0] == "slice" else (repr(list(sel[1])) if sel[0] == "list" else "<mask of the even rows>")
+            return f"t[t._index, {key}] = {op[2]!r}"
         if k == "cellby":
             return f"t[t._index, {op[1]!r}] = {op[2]!r}"
         if k in ("col", "attr"):
